@@ -82,6 +82,8 @@ def run(ctx):
     docs, lines = [], []
     for i in range(6000 if quick else 80000):
         d = realise(gen_doc(ctx.rng, ctx.rng.choice([1, 2, 3])), ctx.rng, False, False)
+        if escaped_key(d):
+            continue      # a name spelled with an escape re-reads as the DECODED name (fix 86c1e00): outside parse_render
         ch = [ctx.rng.randrange(0, 12) for _ in range(ctx.rng.choice([0, 4, 16, 64]))]
         if ctx.rng.random() < 0.6:
             ch = [c if c % 9 not in (5,) else 0 for c in ch]      # mostly avoid the bare-CR whitespace entry
@@ -105,6 +107,13 @@ def run(ctx):
                 ctx.disagreements.append({"scope": "model renderer", "case": l, "text": textlib.unhx(t[5:])[:300],
                                           "model": e, "impl": g})
     ctx.notes["model_renderer_cr_rejected"] = sum(1 for _ in diff) - sc["disagreements"]
+
+def escaped_key(d):
+    if isinstance(d, list):
+        return any(escaped_key(e) for e in d)
+    if isinstance(d, tuple):
+        return any("\\" in (k if isinstance(k, str) else k.decode()) or escaped_key(v) for k, v in d)
+    return False
 
 def replay(rp):
     lines = []
